@@ -1,2 +1,55 @@
-From Sup Require Import ProcStatus.
-Theorem placeholder : True. Proof. exact I. Qed.
+(* C11 — ProcessStatus synthesis: property-level theorems (proofs in proofs/ProcStatusProofs.v). *)
+From Sup Require Import ProcStatus ProcStatusProofs.
+
+(* Every history: as long as the operations are well-formed, each observation of the implementation
+   model is accepted by the abstract specification. *)
+Theorem C11_refines_spec :
+  forall ops, spec_violated spec_init ops (run proc_init ops) = false.
+Proof. exact refines_spec. Qed.
+
+(* A well-formed history never raises, and yields one observation per operation. *)
+Theorem C11_no_crash_on_wf_history :
+  forall ops, wf_history spec_init ops = true ->
+    (forall o, In o (run proc_init ops) -> exists x, o = OOk x)
+    /\ length (run proc_init ops) = length ops.
+Proof. exact wf_history_no_crash. Qed.
+
+(* The conflict state is the most advanced of the running states: RUNNING > BACKOFF > STARTING > STOPPING. *)
+Theorem C11_running_state_is_most_advanced :
+  forall states, running_state states = most_advanced states.
+Proof. exact running_state_spec. Qed.
+
+(* Losing instance j does not touch the information of any other instance. *)
+Theorem C11_loss_frame :
+  forall p j now p', invalidate p j now = Ok p' ->
+    forall i, i <> j -> aget i (p_infos p') = aget i (p_infos p).
+Proof. exact loss_frame. Qed.
+
+(* Losing a running instance j marks it FATAL and removes it from the running identifiers. *)
+Theorem C11_loss_makes_fatal :
+  forall p j now p', zmem j (p_running p) = true -> invalidate p j now = Ok p' ->
+    (exists inf, aget j (p_infos p') = Some inf /\ i_state inf = FATAL) /\ zmem j (p_running p') = false.
+Proof. exact loss_makes_fatal. Qed.
+
+(* Forcing a state changes neither the per-instance information, nor the running set, nor the synthesized state. *)
+Theorem C11_force_frame :
+  forall p i st et, let p' := fst (force_state p i st et) in
+    p_infos p' = p_infos p /\ p_running p' = p_running p /\ p_state p' = p_state p.
+Proof. exact force_frame. Qed.
+
+(* A forced state is dismissed exactly when it is older than the last event known for that instance. *)
+Theorem C11_force_dismissed_iff :
+  forall p i st et,
+    snd (force_state p i st et) = false <-> exists inf, aget i (p_infos p) = Some inf /\ et < i_event_time inf.
+Proof. exact force_dismissed_iff. Qed.
+
+(* On every state related to a spec state (in particular every reachable one, see reachable_R):
+   conflicting iff at least two instances are listed as running. *)
+Theorem C11_conflict_iff :
+  forall p sp, R p sp -> (conflicting p = true <-> (2 <= length (spec_running sp))%nat).
+Proof. exact conflict_iff. Qed.
+
+(* The reflected supervisor tuples RUNNING_STATES / STOPPED_STATES mean what the property text says. *)
+Theorem C11_tables :
+  (forall s, is_running s = is_running_like s) /\ (forall s, is_stopped s = is_stopped_like s).
+Proof. exact tables_spec. Qed.
